@@ -266,6 +266,8 @@ def long_histories(draw):
             if curves_only:
                 kinds += ["rci", "rci"]
         kinds.append("set_absent")
+        if n >= 2:
+            kinds += ["move", "move"]
         k = draw(st.sampled_from(kinds))
         if k == "append":
             op = ["append", draw(name)]
@@ -279,6 +281,8 @@ def long_histories(draw):
             op = ["set", draw(st.sampled_from(sm.distinct(m.sessions()))), draw(name)]
         elif k == "set_absent":
             op = ["set", "ZZ", draw(name)]  # documented: appends when the key is absent
+        elif k == "move":
+            op = ["move", draw(st.integers(0, n - 1)), draw(st.integers(0, n - 1))]
         else:
             op = ["rci", draw(st.integers(0, n - 1)), draw(name)]
         sm.model_apply(m, op)
@@ -291,7 +295,7 @@ def long_histories(draw):
 
 RESERVED = {"VERS", "WRAP", "DLM", "NULL", "STRT", "STOP", "STEP"}
 FILE_CHARS = "ABCDEFGHIJKLMNOPQRSTUVWXYZabcdefghijklmnopqrstuvwxyz0123456789_-/()[]%&*+" + "éÉдЖ"
-SECTIONS = (("Well", "W"), ("Curves", "C"), ("Parameter", "P"))
+SECTIONS = (("Version", "V"), ("Well", "W"), ("Curves", "C"), ("Parameter", "P"))
 CASEMAP = {"preserve": lambda x: x, "upper": lambda x: x.upper(), "lower": lambda x: x.lower()}
 
 
@@ -382,8 +386,13 @@ def file_oracle(case):
     secs = case["file"]
     nrows = case.get("nrows", 2)
     las = lasio.LASFile()
-    originals = {"Well": [it.original_mnemonic for it in list.__iter__(las.well)], "Curves": [], "Parameter": []}
+    originals = {"Well": [it.original_mnemonic for it in list.__iter__(las.well)], "Curves": [], "Parameter": [],
+                 "Version": [it.original_mnemonic for it in list.__iter__(las.version)]}
     serial = 0
+    for mn in secs.get("Version", []):
+        serial += 1
+        las.version.append(lasio.HeaderItem(mn, "", "v%d" % serial, "version item %d" % serial))
+        originals["Version"].append(mn)
     for mn in secs["Well"]:
         serial += 1
         las.well.append(lasio.HeaderItem(mn, "", "w%d" % serial, "well item %d" % serial))
@@ -404,7 +413,7 @@ def file_oracle(case):
         o = [models.useful(x) for x in originals[title]]
         if len({x.upper() for x in o}) < len(o):
             dup = True
-    blank = any(mn == "" for t in secs.values() for mn in t)
+    blank = any(mn == "" for t in secs.values() if isinstance(t, list) for mn in t)
     out.nontrivial = dup or blank
     out.cls("file", "file-duplicates" if dup else None, "file-blank" if blank else None)
     out.sample = case
